@@ -498,8 +498,8 @@ func c17R2(c *Ctx, r *Report) {
 		lower []string
 		order [][]string
 	}{
-		{"HashName", isParamNamed("label"), []string{"strings.ToLower", "CanonicalName"}, [][]string{{"name", "salt"}, {"digest", "salt"}}},
-		{"DNSKEY.ToDS", readsField("RR_Header", "Name"), []string{"CanonicalName", "strings.ToLower"}, [][]string{{"name", "keywire"}}},
+		{"HashName", isParamNamed("label"), []string{"asciiLower", "CanonicalName"}, [][]string{{"name", "salt"}, {"digest", "salt"}}},
+		{"DNSKEY.ToDS", readsField("RR_Header", "Name"), []string{"CanonicalName", "asciiLower"}, [][]string{{"name", "keywire"}}},
 	} {
 		fn := c.ssaFunc(spec.fn)
 		if fn == nil {
@@ -514,6 +514,7 @@ func c17R2(c *Ctx, r *Report) {
 			arg := packs[0].Common().Args[0]
 			call, ok := arg.(*ssa.Call)
 			good := false
+			runeWise := ""
 			if ok {
 				n := calleeNameSSA(&call.Call)
 				for _, l := range spec.lower {
@@ -521,8 +522,15 @@ func c17R2(c *Ctx, r *Report) {
 						good = true
 					}
 				}
+				if n == "strings.ToLower" || n == "strings.ToUpper" || n == "strings.Map" {
+					runeWise = n
+				}
 			}
-			r.check(good, "C17.R2.lowercase", spec.fn, c.pos(packs[0].Pos()), "lower-cased before packing", "the name packed for hashing is %v, not the lower-cased input: the result would depend on letter case", arg)
+			if runeWise != "" {
+				r.fail("C17.R2.lowercase", spec.fn, c.pos(packs[0].Pos()), "the name is case-folded with %s, which works on runes: an octet above 0x7f that is not valid UTF-8 is replaced by U+FFFD and non-ASCII letters are lower-cased too, so the digest is that of another name (RFC 4343 folds A-Z only, octet by octet)", runeWise)
+			} else {
+				r.check(good, "C17.R2.lowercase", spec.fn, c.pos(packs[0].Pos()), "lower-cased (octet-wise) before packing", "the name packed for hashing is %v, not the lower-cased input: the result would depend on letter case", arg)
+			}
 		}
 		// Write sequences per block
 		var seqs [][]string
